@@ -122,6 +122,8 @@ type Result struct {
 	Faults       map[string]int
 	SchedTrace   []int
 	Goroutines   int
+	SimNanos     int64 // simulated clock at the end of the run
+	TimersFired  int
 }
 
 // Run executes body as simulated goroutine 0 under the scheduler and returns
@@ -139,7 +141,7 @@ func Run(cfg Config, body func(s *Sim)) *Result {
 	go s.entry(g0, func() { body(s) })
 	s.loop()
 	res := &Result{Steps: s.steps, Switches: s.switches, SchedHash: s.hash, Failure: s.fail, Inconclusive: s.exhaust,
-		Log: s.Log, States: s.States, Probes: s.Probes, Faults: s.Faults, SchedTrace: s.sched.Trace(), Goroutines: len(s.gs)}
+		Log: s.Log, States: s.States, Probes: s.Probes, Faults: s.Faults, SchedTrace: s.sched.Trace(), Goroutines: len(s.gs), SimNanos: s.now, TimersFired: s.Fired}
 	for _, g := range s.gs {
 		if st := atomic.LoadInt32(&g.state); st != stDone {
 			res.Blocked = append(res.Blocked, g.describe())
